@@ -246,6 +246,8 @@ struct GTask {
     name: String,
     out: String,
     deps: Vec<usize>,
+    /// reach the dependencies through a phony alias (`build alias_N: phony <their outputs>`)
+    via_phony: bool,
     pool: Option<String>,
     fails: bool,
     /// traps SIGINT and exits 0 without doing its work
@@ -276,7 +278,11 @@ fn gated_manifest(tasks: &[GTask], pools: &BTreeMap<String, usize>, rng: &mut Rn
         if let Some(p) = &t.pool {
             m.push_str(&format!("  pool = {}\n", p));
         }
-        let ins: Vec<String> = t.deps.iter().map(|&d| tasks[d].out.clone()).collect();
+        let mut ins: Vec<String> = t.deps.iter().map(|&d| tasks[d].out.clone()).collect();
+        if t.via_phony && !ins.is_empty() {
+            m.push_str(&format!("build alias_{}: phony {}\n", t.name, ins.join(" ")));
+            ins = vec![format!("alias_{}", t.name)];
+        }
         // dependencies in any ordering role
         let (mut ex, mut im, mut oo) = (vec![], vec![], vec![]);
         for i in ins {
@@ -342,7 +348,8 @@ fn gen_tasks(rng: &mut Rng, n: usize, pools: &BTreeMap<String, usize>, fail_p: u
             }
         }
         let pool = if !pools.is_empty() && rng.chance(1, 3) { Some(rng.pick(&pools.keys().cloned().collect::<Vec<_>>()).clone()) } else { None };
-        tasks.push(GTask { name: format!("t{}", i), out: format!("o{}", i), deps, pool, fails: fail_p > 0 && rng.chance(1, fail_p), swallows: false });
+        let via_phony = rng.chance(1, 3);
+        tasks.push(GTask { name: format!("t{}", i), out: format!("o{}", i), deps, via_phony, pool, fails: fail_p > 0 && rng.chance(1, fail_p), swallows: false });
     }
     tasks
 }
@@ -350,15 +357,24 @@ fn gen_tasks(rng: &mut Rng, n: usize, pools: &BTreeMap<String, usize>, fail_p: u
 /// C19 under a terminal: displayed counts against the true state at quiescent points.
 pub fn c19_pty_case(ctx: &Ctx, env: &RealEnv, dir: &Path, case: u64, seed: u64, rep: &mut Report) {
     let mut rng = Rng::new(seed);
-    let n = rng.range(2, if ctx.thorough() { 12 } else { 7 });
+    // (the status area lists at most 8 running commands: go beyond that sometimes)
+    let wide = rng.chance(1, 4);
+    let n = if wide { rng.range(9, 14) } else { rng.range(2, if ctx.thorough() { 12 } else { 7 }) };
     let mut pools = BTreeMap::new();
-    if rng.chance(1, 2) {
+    if rng.chance(1, 2) && !wide {
         pools.insert("p1".to_string(), rng.range(1, 2));
     }
-    let tasks = gen_tasks(&mut rng, n, &pools, 6);
+    let mut tasks = gen_tasks(&mut rng, n, &pools, 6);
+    if wide {
+        for t in tasks.iter_mut() {
+            if rng.chance(3, 4) {
+                t.deps.clear();
+            }
+        }
+    }
     let manifest = gated_manifest(&tasks, &pools, &mut rng, true);
     prepare(dir, &tasks, &manifest);
-    let j = *rng.pick(&[1usize, 2, 3, 4, 16]);
+    let j = if wide { 16 } else { *rng.pick(&[1usize, 2, 3, 4, 16]) };
     let cols = *rng.pick(&[40u16, 80, 120, 200]);
     let args: Vec<String> = vec!["-j".into(), j.to_string(), "-k".into(), "1000".into()];
     let mut s = match Session::spawn(env, dir, &args, Some((cols, 30))) {
